@@ -826,6 +826,13 @@ impl<'a> UserModel<'a> {
                     self.model.delete_sheet(*sheet)?;
                     if *sheet > 0 {
                         self.set_selected_sheet(*sheet - 1)?;
+                    } else {
+                        // the first sheet is gone: a selection on the last sheet
+                        // would now point past the end
+                        let sheet_count = self.model.workbook.worksheets.len() as u32;
+                        if self.get_selected_sheet() >= sheet_count {
+                            self.set_selected_sheet(sheet_count - 1)?;
+                        }
                     }
                 }
                 Diff::NewSheet { index, name } => {
